@@ -52,6 +52,10 @@ def cells(tier):
 
 
 def gen(tier, seed, shard, nshards):
+    # large sparse graphs (where a generator may switch to another way of drawing edges): pooled edge counts over seeds
+    for b, (pb, kb) in enumerate(((500, 3.0), (600, 9.0), (1000, 15.0), (1000, 4.0), (2000, 39.0), (1500, 25.0), (800, 2.0), (2000, 10.0))):
+        if b % nshards == shard:
+            yield "big", {"p": pb, "k": kb, "n_seeds": 24 if tier == "quick" else 200, "base": int(seed)}
     for idx, (g, p, k) in enumerate(cells(tier)):
         if idx % nshards == shard:
             n = NSEEDS[tier] if p <= 30 else max(40, NSEEDS[tier] // 10)
@@ -112,8 +116,52 @@ def _check_call(rec, family, case, gname, fn, p, k, wr, rs):
     return out, [int(v) for v in order]
 
 
+def _judge_big(gens, case, rec, family):
+    """Large sparse graphs: validity by numpy (the ordering makes the matrix strictly upper triangular), edge law by the pooled count."""
+    p, k, ns = case["p"], case["k"], case["n_seeds"]
+    rec.case(family, case, True, key=("big", p, k, case["base"]))
+    prob = k / (p - 1.0)
+    m = p * (p - 1) // 2
+    total = 0
+    for t in range(ns):
+        rs = util.derive_seed("C11big", case["base"], p, k, t) % (2**32)
+        try:
+            W, order = gens.dag_avg_deg(p, k, 0.5, 2.0, return_ordering=True, random_state=rs)
+        except Exception as e:
+            rec.exception_violation("C11:dag_avg_deg-exception", family, case, "dag_avg_deg(p=%d, k=%g) raised" % (p, k), e)
+            return
+        W = np.asarray(W)
+        order = np.asarray(order)
+        nz = W != 0
+        ok = W.shape == (p, p) and sorted(order.tolist()) == list(range(p))
+        if ok:
+            T = nz[np.ix_(order, order)]
+            ok = not np.tril(T).any()
+        if not ok:
+            rec.violation("C11:dag_avg_deg-ordering-invalid", family, case, "p=%d, random_state=%d: the returned ordering is not a topological order of the returned graph" % (p, rs))
+            return
+        vals = W[nz]
+        if vals.size and (vals.min() < 0.5 or vals.max() > 2.0):
+            rec.violation("C11:dag_avg_deg-weights-out-of-range", family, case, "p=%d: weights outside [0.5, 2]" % p)
+            return
+        total += int(nz.sum())
+        rec.count("calls:dag_avg_deg")
+    N_ = ns * m
+    b = S.binom_tail_bound(total, N_, prob)
+    rec.count("freq:edge-law-asserted")
+    rec.count("big:graphs", ns)
+    rec.max("big:|relative deviation of the edge count|", abs(total / (N_ * prob) - 1.0))
+    if b < S.DELTA:
+        rec.violation("C11:dag_avg_deg-edge-probability", family, case,
+                      "p=%d, k=%g over %d seeds: %d edges among %d pairs, expected %.0f (relative deviation %.3g; bound %.3g)"
+                      % (p, k, ns, total, N_, N_ * prob, total / (N_ * prob) - 1.0, b))
+
+
 def judge(family, case, rec):
     import sempler.generators as gens
+    if family == "big":
+        _judge_big(gens, case, rec, family)
+        return
     gname, p, k, wr, n_seeds = case["gen"], case["p"], case["k"], tuple(case["wrange"]), case["n_seeds"]
     fn = getattr(gens, gname)
     seeds = [0, 42, 2**32 - 1] + [util.derive_seed("C11", case["base"], gname, p, k, i) % (2**32) for i in range(n_seeds - 3)]
